@@ -2,7 +2,7 @@ NOT_CLAIMED_REASON = {}
 CLAIMED = {
  "C08": {
   "text": "Generated registration histories (incl. bulk registrations that cross 2^16 entries per kind, implicit registration by parse/html5(), Xot::clone) compared after every step with reference string<->id maps; all ids issued so far are re-resolved after bulk and clone steps. Exploration only: absence of a counterexample within the explored histories.",
-  "note": "Trusted: the harness's reference maps; bounds: <= 120 steps, <= 2^17 registrations per kind.",
+  "note": "Trusted: the harness's reference maps; bounds: <= 120 steps, <= 2^17 registrations per kind. Plan hist-parse: generated documents with PIs (target ids checked) and rejected documents that introduce new strings before the error, followed by new registrations.",
   "technique": "property-based testing (proptest-generated histories, model-based oracle, shrinking to replay file)",
  },
  "C04": {
@@ -47,7 +47,7 @@ CLAIMED = {
  },
  "C01": {
   "text": "Generated well-scoped, XML-representable trees (full XML Char alphabet, shadowing, xmlns=\"\" undeclaration) built by three routes are serialised (whole tree or a non-root element), reparsed, and the read-back compared with the generator's abstract tree (names, attribute sets, text, comments, PIs, per-element declaration maps; inherited bindings on a sub-element's top tag per the scope model) plus deep_equal.",
-  "note": "Round trip through xot's own parser as the statement says; escaping defects that cancel between serializer and parser are covered by C02's and C10's independent readers.",
+  "note": "Round trip through xot's own parser as the statement says, plus a second reading of the same output by an independent tokenizer + namespace resolver (serializer and parser defects that cancel in a round trip do not cancel there). Plan api-free adds layouts only the API can build (no-namespace elements below a default namespace without xmlns=\"\"): to_string must succeed when every namespaced name has a usable prefix.",
   "technique": "property-based round-trip testing with model-owned expected tree",
  },
  "C14": {
@@ -57,7 +57,7 @@ CLAIMED = {
  },
  "C16": {
   "text": "For generated trees, start nodes and token parameters the token stream, the pretty token stream and the Write-based entry points are compared byte for byte with the string serialisations, and outputs() with an event list generated from the reference tree (node tags included; inherited Prefix events on the top element checked against the scope model).",
-  "note": "Differential between entry points of the same serializer plus a model-generated event grammar.",
+  "note": "Differential between entry points of the same serializer plus a model-generated event grammar. Write entry points are driven into a Vec and into a writer that accepts 1..7 bytes per call; empty text nodes (API-only) are part of the trees.",
   "technique": "property-based differential testing between API entry points + model-generated expected event stream",
  },
  "C13": {
@@ -67,7 +67,7 @@ CLAIMED = {
  },
  "C20": {
   "text": "Each generated document/element is built by parsing a canonical rendering, by fixed::Document/Element::xotify and by stepwise creation in a generated construction order; the three read-backs must equal the abstract document exactly (declaration, attribute and top-level sibling order included), be pairwise deep_equal and serialise byte-identically.",
-  "note": "Trusted: canonical renderer and read-back.",
+  "note": "Trusted: canonical renderer and read-back. A fourth route builds every text node from up to three pieces (append / prepend / insert_before / insert_after next to the run or its neighbour) and must end in the same tree.",
   "technique": "property-based differential testing between three construction routes",
  },
  "C09": {
@@ -87,7 +87,7 @@ CLAIMED = {
  },
  "C12": {
   "text": "clone_node: forest model in lock-step (C05 machinery); the clone must be parentless, equal to the model's copy (adjacent text merged iff consolidation is on), made of never-seen handles, and a generated mutation history confined to one side must leave the whole store equal to the model, i.e. the other side untouched. clone_with_prefixes: declarations superset, and if the source tree serialises the clone serialises alone to the same expanded names (independent reader). Xot::clone: equal read-backs, independence in both directions.",
-  "note": "Trusted: forest model and xmltok reader.",
+  "note": "Trusted: forest model and xmltok reader. Xot::clone also has to carry the xml:id index (xml_id_node compared in both stores).",
   "technique": "model-based stateful property-based testing + independent-reader oracle",
  },
  "C18": {
